@@ -33,7 +33,7 @@ ObjOf(i) == LET S == {j \in 1..(i - 1) : stack[j].k \in {"to", "hg"}} IN IF S = 
 
 StatefulIds == {stack[i].id : i \in {j \in 1..N : stack[j].k \in {"cb", "rl", "bh", "cache"}}}
 InitPol(p) == CASE p.k = "cb" -> BO(p.cfg)!NewClosed
-                [] p.k = "rl" -> p.m            \* permits left in the (single, very long) period
+                [] p.k = "rl" -> [per |-> 0, left |-> p.m]     \* current period and permits left in it
                 [] p.k = "bh" -> p.pre          \* permits in use (pre: taken through the standalone API before the run)
                 [] p.k = "cache" -> {}          \* set of [k, v]
 DescOf(id) == stack[CHOOSE i \in 1..N : stack[i].k \in {"cb", "rl", "bh", "cache"} /\ stack[i].id = id]
@@ -78,8 +78,9 @@ Down(s) ==
              s1 == AddBrEvents([s EXCEPT !.pol[p.id] = a.b], i, a.ev) IN
          IF a.ret THEN Desc(s1) ELSE Ret(s1, i - 1, Failure(Leaf("ErrOpen")))
     [] p.k = "rl" ->
-         IF s.pol[p.id] > 0 THEN Desc([s EXCEPT !.pol[p.id] = @ - 1])
-         ELSE Ret(Ev(s, "OnRateLimitExceeded", i, ObjLastAt(s, i), <<>>), i - 1, Failure(Leaf("RateExceeded")))
+         LET st == RlRoll(p, s.pol[p.id], s.now) IN
+         IF st.left > 0 THEN Desc([s EXCEPT !.pol[p.id] = [st EXCEPT !.left = @ - 1]])
+         ELSE Ret(Ev([s EXCEPT !.pol[p.id] = st], "OnRateLimitExceeded", i, ObjLastAt(s, i), <<>>), i - 1, Failure(Leaf("RateExceeded")))
     [] p.k = "bh" ->
          IF s.pol[p.id] < p.max THEN Desc([s EXCEPT !.pol[p.id] = @ + 1])
          ELSE Ret(Ev(s, "OnFull", i, ObjLastAt(s, i), <<>>), i - 1, Failure(Leaf("ErrFull")))
@@ -179,7 +180,7 @@ RunToChoice(s) == IF AtChoice(s) THEN s ELSE RunToChoice(Step(s))
 Probe(s) == [id \in StatefulIds |->
                LET p == DescOf(id) IN
                CASE p.k = "cb" -> [k |-> "cb", state |-> s.pol[id].st, m |-> BO(p.cfg)!Metrics(s.pol[id].stats)]
-                 [] p.k = "rl" -> [k |-> "rl", left |-> s.pol[id]]
+                 [] p.k = "rl" -> [k |-> "rl", left |-> RlRoll(p, s.pol[id], s.now).left]
                  [] p.k = "bh" -> [k |-> "bh", used |-> s.pol[id]]
                  [] p.k = "cache" -> [k |-> "cache", entries |-> s.pol[id]]]
 
